@@ -144,8 +144,13 @@ func genFlagValue(g *gen, kind string) (tv any, arg string) {
 		n := 1 + g.r.Intn(3)
 		var tvs []any
 		var parts []string
+		seen := map[string]bool{}
 		for i := 0; i < n; i++ {
 			s := []string{"a.example.org", "B.Example.ORG", "/api", "alice", "*", "x-y", "名前", "with space"}[g.r.Intn(8)]
+			if seen[s] {
+				continue
+			}
+			seen[s] = true
 			tvs = append(tvs, s)
 			parts = append(parts, s)
 		}
@@ -339,7 +344,6 @@ func flagCase(c *h.Case) {
 				sig = append(sig, "dashboard_tls_mode=false")
 			}
 		}
-		g.r.Shuffle(len(args)/1, func(i, j int) {}) // order of flags is irrelevant; kept as generated (values follow their flags)
 		c.Data["args"] = args
 		c.Data["file"] = plain(tree)
 		got, ran, err := frpsCommand(args)
